@@ -161,6 +161,8 @@ pub enum Cell {
     Free,
     Shared,
     Excl,
+    /// probing the borrow flag itself panicked (a flag that has under- or overflowed)
+    Corrupt,
 }
 
 /// Classify the borrow state of a cell through the public `try_fetch_internal`.
@@ -172,18 +174,25 @@ pub fn probe_cell(w: &World, k: RKey) -> Cell {
     let cell = unsafe { w.try_fetch_internal(k.rid()) };
     match cell {
         None => Cell::Absent,
-        Some(c) => {
-            if let Ok(g) = c.try_borrow_mut() {
-                drop(g);
-                Cell::Free
-            } else if let Ok(g) = c.try_borrow() {
-                drop(g);
-                Cell::Shared
-            } else {
-                Cell::Excl
-            }
-        }
+        Some(c) => classify_cell(c),
     }
+}
+
+/// The borrow state of one cell. A probe that panics (atomic_refcell's overflow checks fire on a
+/// flag that was released more often than acquired) is a state of its own, never a harness error.
+pub fn classify_cell<T: ?Sized>(c: &shred::cell::AtomicRefCell<T>) -> Cell {
+    std::panic::catch_unwind(std::panic::AssertUnwindSafe(|| {
+        if let Ok(g) = c.try_borrow_mut() {
+            drop(g);
+            Cell::Free
+        } else if let Ok(g) = c.try_borrow() {
+            drop(g);
+            Cell::Shared
+        } else {
+            Cell::Excl
+        }
+    }))
+    .unwrap_or(Cell::Corrupt)
 }
 
 pub fn mix(a: u64, b: u64) -> u64 {
